@@ -108,7 +108,7 @@ def plan(pid, tier):
                 "bounds": {"entry_points": 29, "element_sizes": 7, "count_classes": 16, "min_align": [1, 2, 4, 8, 16]}, "build_profiles": ("release",) if q else ("release", "dbg")}
     if pid == "C20":
         d = 7 if q else 8
-        pair = {"name": "pair-interleavings", "bin": "bumpmc", "profile_build": "release", "args": ["pair", "--prop", "20", "--depth", str(d), "--devs", "1", "--tier", tier, "--budget-s", "40" if q else "900"], "replay_args": ["replay-pair", "--depth", str(d), "--tier", tier]}
+        pair = {"name": "pair-interleavings", "bin": "bumpmc", "profile_build": "release", "args": ["pair", "--prop", "20", "--depth", str(d), "--devs", "1", "--tier", tier, "--budget-s", "90" if q else "900", "--slab-mb", "48"], "replay_args": ["replay-pair", "--depth", str(d), "--tier", tier, "--slab-mb", "48"]}
         iso = {"name": "fresh-process-isolation", "bin": "bumpmc", "profile_build": "release", "args": ["isolation", "--tier", tier], "replay_args": ["replay-isolation", "--tier", tier]}
         loom = {"name": "loom-schedules", "bin": "c20_loom", "profile_build": "release", "args": ["run", "--tier", tier], "replay_args": ["replay"]}
         # the fresh-process differential runs first: if executions in one process are not independent of each
